@@ -28,6 +28,9 @@ pub fn alphabet(s: &Spec) -> Vec<(String, &'static str)> {
             push(effective_name(&v.rust_name, &None, &Some(r.to_string()), true), "other-case-rule", &mut out);
         }
         let eff = model::variant_name(s, v);
+        // a longer path that merely ends (or starts) with the name is another name
+        push(format!("x::{}", eff), "path-around-name", &mut out);
+        push(format!("{}::x", eff), "path-around-name", &mut out);
         push(format!("{}x", eff), "neighbour", &mut out);
         if eff.len() > 1 {
             push(eff[..eff.len() - 1].to_string(), "neighbour", &mut out);
@@ -60,7 +63,7 @@ pub fn enumerate(w: &World, s: &Spec, d: &mut D) -> Vec<ECase> {
     add(Syn::List(vec![Node::Lit("\"lit\"".into(), LK::Str("lit".into()))]), "form:list-literal", false, &mut out);
     let names = alphabet(s);
     for (n, class) in &names {
-        let hard = *class == "skipped-variant" || *class == "other-case-rule" || *class == "rust-name";
+        let hard = *class == "skipped-variant" || *class == "other-case-rule" || *class == "rust-name" || *class == "path-around-name";
         add(Syn::Lit(format!("{:?}", n), LK::Str(n.clone())), &format!("string:{}", class), hard, &mut out);
         add(Syn::Expr(n.clone(), "path".into()), &format!("path-expr:{}", class), false, &mut out);
         add(Syn::List(vec![Node::Item(n.clone(), Syn::Word)]), &format!("list-word:{}", class), hard, &mut out);
